@@ -267,3 +267,20 @@ Proof.
   exact (chain_two_hops p nout0 req0 sits0 sid0 cid1 ll1 rits1 nout1 req1 sits1 sid1 cid2 ll2 rits2 H0 H1 Hf1 Hf2 Hg).
 Qed.
 Print Assumptions C03_chain_two_hops.
+
+(* ---------------------------------------------------------------------------------------------------------------
+   A chain of ANY length (Proto/ChainN.v): source -> relay_1 -> ... -> relay_n -> sink, by induction over the list of relays
+   with the one-hop lemma as the step.  [chain_ok] says: every relay is fed, in order and without loss, what the stage before
+   it published, and does what MQGlue.v says.  Then whatever the sink is handed under id k is the visible part of the
+   COMPOSITION of the relays' process functions applied to the source frame of id k - "every filter sees exactly the sequence
+   obtained by applying the upstream filters' process functions to the source sequence" (the safety half: nothing wrong, nothing
+   out of order, nothing twice; that every frame does arrive needs progress).  Non-vacuity: ChainN.chain_n_nonvacuous. *)
+From OF Require Import Proto.Rejoin Proto.ChainN.
+Theorem C03_chain_n_hops :
+  forall nout0 req0 sits0 sid0 rs cid ll rits,
+    let G0 := groups_of sid0 (snd (srun (init_sender nout0 false req0) sits0)) in
+    chain_ok G0 rs -> Forall group_wf (last_groups G0 rs) -> Edge.fed (stream (last_groups G0 rs)) rits ->
+    forall fr, In fr (Edge.frames (snd (rrun Repaired (init_receiver cid false ll [c0]) rits))) ->
+      exists g0 ps, In g0 G0 /\ fst fr = gid g0 /\ compose rs (parts g0) = Some ps /\ app_view (snd fr) = vis ps.
+Proof. exact chain_n_sink. Qed.
+Print Assumptions C03_chain_n_hops.
